@@ -1131,8 +1131,9 @@ def check_C15(rep, tier, seed, replay):
 
 PROP_THEOREMS = {
     "C01": ["C01_levels_above_10_behave_as_10", "C01_level0_lossless_for_every_input_partial",
-            "C01_level0_raw_roundtrip_on_both_models_partial"],
-    "C02": ["C02_counts_within_buffers", "C02_level0_lossless_under_every_schedule_partial"],
+            "C01_level0_raw_roundtrip_on_both_models_partial", "C01_level0_zlib_roundtrip_on_both_models_partial"],
+    "C02": ["C02_counts_within_buffers", "C02_level0_lossless_under_every_schedule_partial",
+            "C02_level0_any_schedule_then_any_split_partial"],
     "C10": ["C10_length_tables_inverse", "C10_distance_tables_inverse"],
     "C11": ["C11_window_limit_routing", "C11_declared_window"],
     "C12": ["C12_sync_marker_is_empty_stored_block", "C12_level0_flush_point_decodable_partial"],
